@@ -23,6 +23,37 @@ Definition zero_value (t : ftype) : fval :=
 Definition mk_err {A} (nk : node_kind) (fi : finfo) (nend : nat) (m : emsg) : res A :=
   Err (EUnmarshal nk (fi_name fi) nend m).
 
+(* the conversion part of unmarshal(): alphabet check, text unmarshaler, or the built-in kinds *)
+Definition convert (cb : callbacks) (nk : node_kind) (nend : nat) (fi : finfo) (s : bytes) : res fval :=
+  let o := fi_opts fi in
+  match first_invalid (o_enc o) s with
+  | Some c => mk_err nk fi nend (MInvalidChar c)
+  | None =>
+    match t_utext (fi_type fi) with
+    | Some id => match cb_unmarshal cb id s with
+                 | TOk v => Ok v
+                 | TErr m => mk_err nk fi nend (MText m)
+                 end
+    | None =>
+      if o_prefix o && negb (match t_kind (fi_type fi) with KString => true | _ => false end)
+      then mk_err nk fi nend MUnsupported
+      else match t_kind (fi_type fi) with
+           | KBytes => Ok (VBytes s)
+           | KArray n => Ok (VArr (firstn n (s ++ repeat 0 n)))
+           | KInt bits => match ParseInt s (o_base o) bits with
+                          | inl z => Ok (VInt z)
+                          | inr e => mk_err nk fi nend (MParse (match e with PRange => true | PSyntax => false end))
+                          end
+           | KUint bits => match ParseUint s (o_base o) bits with
+                           | inl z => Ok (VUint z)
+                           | inr e => mk_err nk fi nend (MParse (match e with PRange => true | PSyntax => false end))
+                           end
+           | KString => Ok (VStr s)
+           | KOther => mk_err nk fi nend MUnsupported
+           end
+    end
+  end.
+
 (* unmarshal(node, ti, fi, v): returns the value stored and, for an inline field, the text left in the node *)
 Definition assign (cb : callbacks) (nk : node_kind) (nend : nat) (text : bytes) (fi : finfo)
   : res (fval * option bytes) :=
@@ -38,34 +69,7 @@ Definition assign (cb : callbacks) (nk : node_kind) (nend : nat) (text : bytes) 
              end
       else if negb (Z.of_nat (length s0) =? o_len o) then mk_err nk fi nend MLength else Ok (s0, None)
     else Ok (s0, None) in
-  bind cut (fun '(s, rest) =>
-    match first_invalid (o_enc o) s with
-    | Some c => mk_err nk fi nend (MInvalidChar c)
-    | None =>
-      match t_utext (fi_type fi) with
-      | Some id => match cb_unmarshal cb id s with
-                   | TOk v => Ok (v, rest)
-                   | TErr m => mk_err nk fi nend (MText m)
-                   end
-      | None =>
-        if o_prefix o && negb (match t_kind (fi_type fi) with KString => true | _ => false end)
-        then mk_err nk fi nend MUnsupported
-        else match t_kind (fi_type fi) with
-             | KBytes => Ok (VBytes s, rest)
-             | KArray n => Ok (VArr (firstn n (s ++ repeat 0 n)), rest)
-             | KInt bits => match ParseInt s (o_base o) bits with
-                            | inl z => Ok (VInt z, rest)
-                            | inr e => mk_err nk fi nend (MParse (match e with PRange => true | PSyntax => false end))
-                            end
-             | KUint bits => match ParseUint s (o_base o) bits with
-                             | inl z => Ok (VUint z, rest)
-                             | inr e => mk_err nk fi nend (MParse (match e with PRange => true | PSyntax => false end))
-                             end
-             | KString => Ok (VStr s, rest)
-             | KOther => mk_err nk fi nend MUnsupported
-             end
-      end
-    end).
+  bind cut (fun '(s, rest) => bind (convert cb nk nend fi s) (fun v => Ok (v, rest))).
 
 Record ust := {
   u_frags : list ufrag;          (* tree.Fragments (value texts change under inline) *)
